@@ -180,6 +180,9 @@ def extended_search(prop: str, comp: str, mod, tier: str, failing: list) -> dict
 
 # properties whose anchored module is also tied by the translator (checks/py2lean.py + ProcSim/Props/*gen.lean)
 TIE_MODULE = {"C19": "reg_access", "C04": "sim_utils", "C05": "sim_utils"}
+# properties that are also observed through a secondary channel served by another component: the command line must
+# reject (exit status, no table) what the library rejects / must not complete a run that stalls
+SECONDARY = {"C08": "e2e", "C11": "e2e", "C14": "e2e", "C15": "e2e"}
 TIE_SEARCH_TIER = {"queue": "thorough"}      # other components: the quick scope over further seeds (minutes, not hours)
 
 
@@ -229,7 +232,8 @@ def main() -> int:
     if args.replay:
         with open(args.replay) as fh:
             rp = json.load(fh)
-        rec = mod.replay(prop, rp["input"])
+        rmod = importlib.import_module(COMPONENTS[rp["component"]]) if rp.get("component") in COMPONENTS else mod
+        rec = rmod.replay(prop, rp["input"])
         print(json.dumps(rec, indent=1))
         bad = rec["app"] and (rec["o"] is not None or not rec["k"])
         if bad:
@@ -300,6 +304,21 @@ def main() -> int:
                                        "how_to_replay": f"checks/run.py {prop} --replay <this file>"})
             violations.append((path, ""))
         reported += 1
+
+    # (1b) the property's secondary channel (command line), served by another component's run
+    sec_cases = 0
+    if prop in SECONDARY and not violations:
+        sec = component_results(SECONDARY[prop], tier)["results"]
+        for r in sec:
+            rec = r["props"].get(prop)
+            if rec is None or not rec.get("app"):
+                continue
+            sec_cases += 1
+            if rec.get("o") is not None and is_known(r) is None and len(violations) < 2:
+                path = write_replay(prop, {"property": prop, "kind": "oracle", "component": SECONDARY[prop],
+                                           "failing_clause": rec["o"], "seed": seed, "case": r["case"], "input": r.get("input"),
+                                           "impl": r.get("impl"), "how_to_replay": f"checks/run.py {prop} --replay <this file>"})
+                violations.append((path, ""))
 
     # (2) correspondence failures with no oracle failure: search harder for a failing input
     if k_fail and not violations:
@@ -391,7 +410,9 @@ def main() -> int:
         "correspondence": {"component": comp, "cases_run": len(results), "applicable": evaluated,
                            "oracle_failures": len(o_fail), "projection_disagreements": len(k_fail),
                            "families": dict(families), "distribution": dict(tags.most_common(40)),
-                           "component_wall_s": comp_res.get("wall_s")},
+                           "component_wall_s": comp_res.get("wall_s"),
+                           "secondary_channel": ({"component": SECONDARY[prop], "what": "the command line rejects (exit status, no table) what the library rejects / a run that stalls",
+                                                  "cases": sec_cases} if prop in SECONDARY else None)},
         "explanation": ("kernel-checked theorems about the executable Lean model (list under 'theorems') + differential "
                         "correspondence model/implementation on generated inputs + the property's Bool spec evaluated on the "
                         "implementation's output" if level == "proof" else
